@@ -3,13 +3,14 @@
   and the abstract table (no buffer: every insert applied at once) it must be
   indistinguishable from.
 
-  Mirrors (klongpy/db/sys_fn_db.py, after the three `fix:` commits of branch fix-c19):
+  Mirrors (klongpy/db/sys_fn_db.py, after the `fix:` commits of branch fix-c19):
     Table.__init__ / eval_sys_fn_create_table  -> `create`
     Table.insert / insertb / eval_sys_fn_insert_table -> `step … (.insert r)`, `(.insertb rs)`
     Table.commit                               -> `commit`  (unindexed: concatenate;
                                                   indexed: `commitIdx` = last buffered row per
-                                                  key, `_create_index_from_cols`, overwrite of
-                                                  common keys, append of new keys, sort_index)
+                                                  key, `_create_index_from_cols`, drop of the
+                                                  stored rows of the buffered keys, concat with
+                                                  the buffer frame, sort_index)
     Table._create_index_from_cols              -> `createIndex` (sort_index, drop_duplicates)
     Table.get_dataframe / __len__              -> `commit` first, then the read
     Table.get   (klongpy/dyads.py eval_dyad_find `t?col`)   -> `.readCol`  (commits: fix 1)
@@ -95,9 +96,8 @@ def hasKey (kf : Row → Key) (rs : List Row) (k : Key) : Bool := rs.any (fun q 
 /-- `commit()` of an indexed table: frame `C`, buffer `B` -/
 def commitIdx (kf : Row → Key) (C B : List Row) : List Row :=
   let bdf := createIndex kf (dedupLast kf B)                     -- buffer_df
-  let C' := C.map (fun r => (findKey kf (kf r) bdf).getD r)       -- .loc[common] = buffer_df.loc[common]
-  let new := bdf.filter (fun r => !hasKey kf C (kf r))           -- buffer_df.loc[~isin(common)]
-  sortRows kf (C' ++ new)                                        -- concat, sort_index
+  let keep := C.filter (fun r => !hasKey kf bdf (kf r))          -- _df.drop(index=common_idx)
+  sortRows kf (keep ++ bdf)                                      -- concat, sort_index
 
 /-! ### the table -/
 
